@@ -5,7 +5,7 @@ def groups(tier):
              bound='control-flow skeleton (E3) with value tags; loops unrolled twice')
     G = GROUPS_C01
     E2 = [Group('put_get.e2', 'chunkstore_e2', 'C01/put_get.c', entry='h_put_get', replace=['chunk_id_to_string', 'ChunkStore__wipe_persisted_chunk'],
-                unwind=20, kind='unbounded', backend=['cvc5', 'z3', 'sat', 'cadical'], timeout=600,
+                unwind=20, kind='unbounded', backend=['cvc5', 'z3', 'sat', 'cadical'], timeout=1800,
                 clause='put replaces bytes AND deadline from any prior state of the entry (deadline = now + max(ttl, 1 s), default for ttl <= 0); '
                        'get_record serves exactly those bytes at every instant before the deadline and nothing at or after it (symbolic clock)')] if 'C01' == 'C01' else []
     return [Group(n, entry=e, replay=r, clause=c, **K) for n, e, r, c in G] + E2
